@@ -3,7 +3,7 @@
 From Coq Require Import List NArith ZArith Bool Arith Lia.
 Import ListNotations.
 From JV Require Import Model.ScopeAst Model.ScopeIdTrack Model.ScopeGuards Model.ScopeFrameExec
-  Spec.ScopeSpecStmt Proofs.ScopeDictProofs Proofs.ScopeSymProofs Proofs.ScopeSimProofs.
+  Spec.ScopeSpecStmt Proofs.ScopeDictProofs Proofs.ScopeSymProofs Proofs.ScopeEraseProofs Proofs.ScopeSimProofs.
 
 Lemma noalias_inj : forall pynorm p, noalias pynorm p = true ->
   forall x y, In x (n_loop :: names_of p) -> In y (n_loop :: names_of p) -> pynorm x = pynorm y -> x = y.
@@ -23,14 +23,113 @@ Proof.
   - change spec_globals with [(n_namespace, VNsCtor)]. destruct (dget N.eqb x [(n_namespace, VNsCtor)]); [discriminate|reflexivity].
 Qed.
 
+Lemma core2_go' : forall l, (fix go (l : list stmt) : bool := match l with [] => true | x :: r => core2_stmt x && go r end) l = core2_prog l.
+Proof. induction l as [|x r IH]; cbn; [reflexivity|rewrite IH; reflexivity]. Qed.
+Lemma core2_incl3_stmt : forall s tl, core2_stmt s = true -> core3_stmt tl s = true.
+Proof.
+  intros s. pattern s.
+  apply (stmt_ind2 _ (fun l => forall tl, core2_prog l = true -> core3_prog tl l = true)); clear s; try (intros; cbn in *; try discriminate; auto; fail).
+  - intros t b ei el Hb Hei Hel tl H. cbn [core2_stmt core3_stmt] in *. rewrite (core2_go' b), (core2_go' ei), (core2_go' el) in H.
+    rewrite (core3_go tl b), (core3_go tl ei), (core3_go tl el).
+    apply andb_true_iff in H. destruct H as [H H3]. apply andb_true_iff in H. destruct H as [H1 H2].
+    rewrite (Hb tl H1), (Hei tl H2), (Hel tl H3). reflexivity.
+  - intros tg it te b el Hb Hel tl H. cbn [core2_stmt core3_stmt] in *. rewrite (core2_go' b), (core2_go' el) in H.
+    rewrite (core3_go false b), (core3_go false el).
+    apply andb_true_iff in H. destruct H as [H1 H2]. rewrite (Hb false H1), (Hel false H2). reflexivity.
+  all: try (intros ? b Hb tl H; cbn [core2_stmt core3_stmt] in *; rewrite (core2_go' b) in H; rewrite (core3_go false b); auto; fail).
+  - intros st l Hs Hl tl H. cbn [core2_prog core3_prog] in *. apply andb_true_iff in H. destruct H as [H1 H2]. rewrite (Hs tl H1), (Hl tl H2). reflexivity.
+Qed.
+Lemma core2_incl3 : forall p tl, core2_prog p = true -> core3_prog tl p = true.
+Proof.
+  induction p as [|s r IH]; intros tl H; [reflexivity|]. cbn [core2_prog core3_prog] in *.
+  apply andb_true_iff in H. destruct H as [H1 H2]. rewrite (core2_incl3_stmt s tl H1), (IH tl H2). reflexivity.
+Qed.
+
+(* the instrumented reference interpreter is the reference interpreter where no macro is defined *)
+Lemma sxi_eq_sx : forall d Sr fuel env ss l, core3_prog false l = true -> sxi d Sr fuel env ss l = sx d fuel env ss l.
+Proof.
+  intros d Sr. induction fuel as [|f IH]; intros env ss l Hc; [reflexivity|].
+  destruct l as [|s rest]; [reflexivity|].
+  cbn [core3_prog] in Hc. apply andb_true_iff in Hc. destruct Hc as [Hcs Hcr].
+  cbn [sx sxi].
+  assert (Step : forall X X', X' = X ->
+            (do (st1, o1) <- X'; do (st2, o2) <- sxi d Sr f env st1 rest; Ok (st2, o1 ++ o2)) =
+            (do (st1, o1) <- X; do (st2, o2) <- sx d f env st1 rest; Ok (st2, o1 ++ o2))).
+  { intros X X' ->. destruct X as [[st1 o1]|e]; cbn [bind]; [|reflexivity]. rewrite (IH env st1 rest Hcr). reflexivity. }
+  apply Step. clear Step.
+  destruct s as [es|t b ei el|tg it te b el|x e|x a e|x kvs|x b|bs b|k b|m ps b|g args|ps g args b]; cbn [core3_stmt] in Hcs; try discriminate; try reflexivity.
+  - rewrite (core3_go false b), (core3_go false ei), (core3_go false el) in Hcs.
+    apply andb_true_iff in Hcs. destruct Hcs as [Hcs H3]. apply andb_true_iff in Hcs. destruct Hcs as [H1 H2].
+    destruct (eval (slk d env ss) (s_heap ss) t) as [v|e]; cbn [bind]; [|reflexivity].
+    destruct (truthy v); [apply IH; exact H1|].
+    clear H1. induction ei as [|s r IHr]; [apply IH; exact H3|].
+    cbn [core3_prog] in H2. apply andb_true_iff in H2. destruct H2 as [H2a H2b].
+    destruct s; try (apply IHr; exact H2b).
+    destruct (eval (slk d env ss) (s_heap ss) test) as [v2|e]; cbn [bind]; [|reflexivity].
+    destruct (truthy v2); [|apply IHr; exact H2b].
+    apply IH. cbn [core3_stmt] in H2a. rewrite (core3_go false body) in H2a.
+    apply andb_true_iff in H2a. destruct H2a as [H2a _]. apply andb_true_iff in H2a. destruct H2a as [H2a _]. exact H2a.
+  - rewrite (core3_go false b), (core3_go false el) in Hcs. apply andb_true_iff in Hcs. destruct Hcs as [H1 H2].
+    destruct (eval (slk d env ss) (s_heap ss) it) as [v|e]; cbn [bind]; [|reflexivity].
+    destruct (iter_items v) as [items|e]; cbn [bind]; [|reflexivity].
+    match goal with |- (do r <- ?A items 0%N ss []; _) = (do r <- ?B items 0%N ss []; _) =>
+      assert (It : forall items idx st out, A items idx st out = B items idx st out) end.
+    { induction items0 as [|item more IHm]; intros idx st out; [reflexivity|].
+      destruct (match te with
+                | Some t => let '(i, stt) := new_scope st [(tg, item)] in
+                            do tv <- eval (slk d (i :: env) stt) (s_heap stt) t; Ok (truthy tv)
+                | None => Ok true
+                end) as [ok|e]; cbn [bind]; [|reflexivity].
+      destruct ok; [|apply IHm].
+      destruct (new_scope st [(tg, item); (n_loop, VLoop (idx + 1))]) as [i st0].
+      rewrite (IH _ _ b H1). destruct (sx d f (i :: env) st0 b) as [[st1 o]|e]; cbn [bind]; [|reflexivity]. apply IHm. }
+    rewrite It. clear It.
+    match goal with |- context [bind ?X _] => destruct X as [[[st1 out] n]|e] end; cbn [bind]; [|reflexivity].
+    destruct el as [|e0 el']; [reflexivity|]. destruct (N.eqb n 0); [|reflexivity].
+    destruct (new_scope st1 []) as [i st2]. rewrite (IH _ _ (e0 :: el') H2). reflexivity.
+  - rewrite (core3_go false b) in Hcs. destruct (new_scope ss []) as [i st1]. rewrite (IH _ _ b Hcs). reflexivity.
+  - rewrite (core3_go false b) in Hcs.
+    destruct (eval_list (slk d env ss) (s_heap ss) (map snd bs)) as [vs|e]; cbn [bind]; [|reflexivity].
+    destruct (new_scope ss _) as [i st1]. rewrite (IH _ _ b Hcs). reflexivity.
+  - rewrite (core3_go false b) in Hcs. destruct (new_scope ss []) as [i st1]. rewrite (IH _ _ b Hcs). reflexivity.
+Qed.
+
+Lemma sexported_erase : forall priv ss, sexported priv (estate ss) = sexported priv ss.
+Proof.
+  intros priv ss. unfold sexported, estate; cbn [s_scopes]. rewrite nth_e. generalize (nth 0 (s_scopes ss) []). intros sc.
+  unfold escope. induction sc as [|[k v] r IH]; cbn [map filter fst snd]; [reflexivity|].
+  destruct (negb (priv k)); cbn [map fst snd]; rewrite IH; [rewrite to_text_erase|]; reflexivity.
+Qed.
+
+(* macro definitions at top level (never called): through the instrumented interpreter and its erasure *)
+Theorem scoping_correct_macrodefs_thm : forall (pynorm : name -> name) (priv : name -> bool) d p,
+  core3_prog true p = true -> wf_names p = true -> noalias pynorm p = true -> guard_rbw p d = true ->
+  (forall x v, dget N.eqb x d = Some v -> cfree' v) ->
+  forall fuel, frender pynorm priv d fuel p = srender priv d fuel p.
+Proof.
+  intros pynorm priv d p Hc Hw Hn Hg Hd fuel.
+  rewrite (core_render_agree pynorm priv d (mk_frame [] [] p) (n_loop :: names_of p) (noalias_inj pynorm p Hn)
+             (or_introl eq_refl) fuel p Hc eq_refl).
+  - unfold srender_i, srender.
+    change (mkS [[]] []) with (estate (mkS [[]] [])) at 2.
+    rewrite (sx_erase d (mk_frame [] [] p) Hd fuel true [0] (mkS [[]] []) p Hc).
+    destruct (sxi d (mk_frame [] [] p) fuel [0] (mkS [[]] []) p) as [[ss o]|e]; cbn [eres bind]; [|reflexivity].
+    rewrite sexported_erase. reflexivity.
+  - unfold okocc. unfold wf_names in Hw. rewrite forallb_forall in Hw. apply Forall_forall. exact Hw.
+  - intros x Hx. right. exact Hx.
+  - apply guard_rbw_gok. exact Hg.
+Qed.
+
+(* without macro definitions no hypothesis on the render arguments is needed *)
 Theorem scoping_correct_ext_thm : forall (pynorm : name -> name) (priv : name -> bool) d p,
   core2_prog p = true -> wf_names p = true -> noalias pynorm p = true -> guard_rbw p d = true ->
   forall fuel, frender pynorm priv d fuel p = srender priv d fuel p.
 Proof.
   intros pynorm priv d p Hc Hw Hn Hg fuel.
-  apply (core_render_agree pynorm priv d (n_loop :: names_of p) (noalias_inj pynorm p Hn)).
-  - left. reflexivity.
-  - exact Hc.
+  assert (H3 : forall tl, core3_prog tl p = true) by (intros tl; apply core2_incl3; exact Hc).
+  rewrite (core_render_agree pynorm priv d (mk_frame [] [] p) (n_loop :: names_of p) (noalias_inj pynorm p Hn)
+             (or_introl eq_refl) fuel p (H3 true) eq_refl).
+  - unfold srender_i, srender. rewrite (sxi_eq_sx d (mk_frame [] [] p) fuel [0] (mkS [[]] []) p (H3 false)). reflexivity.
   - unfold okocc. unfold wf_names in Hw. rewrite forallb_forall in Hw. apply Forall_forall. exact Hw.
   - intros x Hx. right. exact Hx.
   - apply guard_rbw_gok. exact Hg.
@@ -43,10 +142,10 @@ Lemma core_incl_stmt : forall s, core_stmt s = true -> core2_stmt s = true.
 Proof.
   intros s. pattern s.
   apply (stmt_ind2 _ (fun l => core_prog l = true -> core2_prog l = true)); clear s; try (intros; cbn in *; try discriminate; auto; fail).
-  - intros t b ei el Hb Hei Hel H. cbn [core_stmt core2_stmt] in *. rewrite (core_go' b), (core_go' ei), (core_go' el) in H. rewrite (core2_go b), (core2_go ei), (core2_go el).
+  - intros t b ei el Hb Hei Hel H. cbn [core_stmt core2_stmt] in *. rewrite (core_go' b), (core_go' ei), (core_go' el) in H. rewrite (core2_go' b), (core2_go' ei), (core2_go' el).
     apply andb_true_iff in H. destruct H as [H H3]. apply andb_true_iff in H. destruct H as [H1 H2].
     rewrite (Hb H1), (Hei H2), (Hel H3). reflexivity.
-  - intros tg it te b el Hb Hel H. cbn [core_stmt core2_stmt] in *. destruct te; [discriminate|]. rewrite (core_go' b), (core_go' el) in H. rewrite (core2_go b), (core2_go el).
+  - intros tg it te b el Hb Hel H. cbn [core_stmt core2_stmt] in *. destruct te; [discriminate|]. rewrite (core_go' b), (core_go' el) in H. rewrite (core2_go' b), (core2_go' el).
     apply andb_true_iff in H. destruct H as [H1 H2]. rewrite (Hb H1), (Hel H2). reflexivity.
   - intros bs b Hb H. cbn in *. destruct bs; [|discriminate]. auto.
   - intros st l Hs Hl H. cbn [core_prog core2_prog] in *. apply andb_true_iff in H. destruct H as [H1 H2]. rewrite (Hs H1), (Hl H2). reflexivity.
@@ -167,7 +266,7 @@ Section NoFuel.
     2:{ intros [st1 o1] _. apply bind_noF; [apply IH; [exact Hcr|lia]|]. intros [st2 o2] _. discriminate. }
     destruct s as [es|t b ei el|tg it te b el|x e|x a e|x kvs|x b|bs b|k b|m ps b|g args|ps g args b]; cbn [core2_stmt] in Hcs; try discriminate.
     - apply bind_noF; [apply eval_out_noF|]. intros; discriminate.
-    - rewrite (core2_go b), (core2_go ei), (core2_go el) in Hcs. apply andb_true_iff in Hcs. destruct Hcs as [Hcs H3]. apply andb_true_iff in Hcs. destruct Hcs as [H1 H2].
+    - rewrite (core2_go' b), (core2_go' ei), (core2_go' el) in Hcs. apply andb_true_iff in Hcs. destruct Hcs as [Hcs H3]. apply andb_true_iff in Hcs. destruct Hcs as [H1 H2].
       cbn [ssize] in Hs. rewrite (ssize_go b), (ssize_go ei), (ssize_go el) in Hs.
       apply bind_noF; [apply eval_noF|]. intros v _. destruct (truthy v); [apply IH; [exact H1|lia]|].
       assert (G : forall ei, core2_prog ei = true -> ssize_l ei <= ssize_l ei -> ssize_l ei + ssize_l el < f ->
@@ -183,10 +282,10 @@ Section NoFuel.
           pose proof (ssize_pos s).
           destruct s; try (apply IHr; [exact Hc2|lia|lia]).
           apply bind_noF; [apply eval_noF|]. intros v2 _. destruct (truthy v2); [|apply IHr; [exact Hc2|lia|lia]].
-          cbn [core2_stmt] in Hc1. rewrite (core2_go body), (core2_go elifs), (core2_go els) in Hc1. apply andb_true_iff in Hc1. destruct Hc1 as [Hc1 _]. apply andb_true_iff in Hc1. destruct Hc1 as [Hc1 _].
+          cbn [core2_stmt] in Hc1. rewrite (core2_go' body), (core2_go' elifs), (core2_go' els) in Hc1. apply andb_true_iff in Hc1. destruct Hc1 as [Hc1 _]. apply andb_true_iff in Hc1. destruct Hc1 as [Hc1 _].
           cbn [ssize] in Hs0. rewrite (ssize_go body), (ssize_go elifs), (ssize_go els) in Hs0. apply IH; [exact Hc1|lia]. }
       apply G; [exact H2|lia|lia].
-    - rewrite (core2_go b), (core2_go el) in Hcs. apply andb_true_iff in Hcs. destruct Hcs as [H1 H2].
+    - rewrite (core2_go' b), (core2_go' el) in Hcs. apply andb_true_iff in Hcs. destruct Hcs as [H1 H2].
       cbn [ssize] in Hs. rewrite (ssize_go b), (ssize_go el) in Hs.
       apply bind_noF; [apply eval_noF|]. intros v _. apply bind_noF; [apply iter_items_noF|]. intros items _.
       apply bind_noF.
@@ -204,12 +303,12 @@ Section NoFuel.
     - destruct (slk_ok env st x) as [c ->]. cbn [bind]. destruct c; try discriminate.
       apply bind_noF; [apply eval_noF|]. intros; discriminate.
     - destruct (slk_ok env st n_namespace) as [c ->]. cbn [bind]. apply bind_noF; [apply eval_kvs_noF|]. intros vs _. destruct c; discriminate.
-    - rewrite core2_go in Hcs. cbn [ssize] in Hs. rewrite ssize_go in Hs.
+    - rewrite core2_go' in Hcs. cbn [ssize] in Hs. rewrite ssize_go in Hs.
       destruct (new_scope st []) as [i st1]. apply bind_noF; [apply IH; [exact Hcs|lia]|]. intros [st2 o] _. discriminate.
-    - rewrite core2_go in Hcs. cbn [ssize] in Hs. rewrite ssize_go in Hs.
+    - rewrite core2_go' in Hcs. cbn [ssize] in Hs. rewrite ssize_go in Hs.
       apply bind_noF; [apply eval_list_noF|]. intros vs _.
       destruct (new_scope st _) as [i st1]. apply bind_noF; [apply IH; [exact Hcs|lia]|]. intros [st2 o] _. discriminate.
-    - rewrite core2_go in Hcs. cbn [ssize] in Hs. rewrite ssize_go in Hs.
+    - rewrite core2_go' in Hcs. cbn [ssize] in Hs. rewrite ssize_go in Hs.
       destruct (new_scope st []) as [i st1]. apply bind_noF; [apply IH; [exact Hcs|lia]|]. intros [st2 o] _. discriminate.
   Qed.
 End NoFuel.
